@@ -231,8 +231,8 @@ func runC18(res *Result, d *Driver, tier string, seed uint64) {
 	os.WriteFile(tmp+"/r/f", nil, 0644)
 	os.WriteFile(tmp+"/r/deep/g", nil, 0644)
 	os.Symlink(tmp+"/w", tmp+"/lw")         // link into writable
-	os.Symlink("../r/deep", tmp+"/w/lr")     // relative link writable -> readable
-	os.Symlink(tmp+"/nowhere", tmp+"/dang")  // dangling
+	os.Symlink("../r/deep", tmp+"/w/lr")    // relative link writable -> readable
+	os.Symlink(tmp+"/nowhere", tmp+"/dang") // dangling
 	os.Symlink(tmp+"/r/f", tmp+"/s/lf")
 	forestPaths := []string{"", "/", tmp, tmp + "/w", tmp + "/w/f", tmp + "/w/sub", tmp + "/w/sub/new", tmp + "/lw", tmp + "/lw/f", tmp + "/lw/sub/x",
 		tmp + "/w/lr", tmp + "/w/lr/g", tmp + "/r", tmp + "/r/f", tmp + "/r/deep", tmp + "/r/deep/g", tmp + "/r/deep/er", tmp + "/s", tmp + "/s/lf", tmp + "/dang", tmp + "/dang/x", tmp + "/none", "/etc/passwd"}
